@@ -1,261 +1,8 @@
-import NaijaVerif.Model.Eval
-import NaijaVerif.Model.AnalysisEval
+import NaijaVerif.Model.AnalysisPrims
 import NaijaVerif.Lemmas.AnalysisNoTrap
 /-
 BRIDGE, part 1: the primitives of the shared evaluator model `Model/Eval.lean` as an instance of the
-abstract `Prims` of the C03 evaluator `Model/AnalysisEval.lean`, for a number type `[NumOps N]` and
-a run configuration `cfg` (of which only `std`, `policy`, `runProc` matter here).
-
-The instance is for the CURRENT code: `cfg.panics = false`, so a fixed site is the runtime error
-`site.fallback` and a residual site is `Err.panic`; spans are dropped (`Err.rt` carries the
-`RtKind` only); `read_line` is the empty string (the bridge is for `cfg.input = []`); an index value
-of a receiver / target path is carried as an array of that length (`idxEnc`), since `Prims.idx`
-returns a value.  A number lexeme that does not parse is `0` here (`Lawful.num` needs a value): the
-refinement is for programs whose number lexemes parse (the scanner's guarantee, `NumLitsParse`).
+abstract `Prims` of the C03 evaluator `Model/AnalysisEval.lean` — `evalPrims`.  The definitions live
+in the core-only `Model/AnalysisPrims.lean` (the driver runs them against the real runtime); this
+file only re-exports them together with the laws `Lawful` are stated in (`Lemmas/AnalysisNoTrap.lean`).
 -/
-namespace NaijaVerif.C03
-open NaijaVerif NaijaVerif.Analysis
-
-variable {N : Type} [NumOps N]
-
-/-! ### Error kinds -/
-
-def rtCode : Eval.RtKind → Nat
-  | .io => 0 | .divisionByZero => 1 | .stackOverflow => 2 | .indexOutOfBounds => 3 | .typeMismatch => 4
-  | .invalidIndex => 5 | .undefinedVariable => 6 | .processUnsupported => 7 | .processDenied => 8
-  | .processSpawnFailed => 9 | .processTimeout => 10 | .processOutputLimitExceeded => 11
-  | .processInvalidUtf8 => 12 | .processSpecInvalid => 13
-
-def rtDecode : Nat → Eval.RtKind
-  | 0 => .io | 1 => .divisionByZero | 2 => .stackOverflow | 3 => .indexOutOfBounds | 4 => .typeMismatch
-  | 5 => .invalidIndex | 6 => .undefinedVariable | 7 => .processUnsupported | 8 => .processDenied
-  | 9 => .processSpawnFailed | 10 => .processTimeout | 11 => .processOutputLimitExceeded
-  | 12 => .processInvalidUtf8 | _ => .processSpecInvalid
-
-theorem rtDecode_code (k : Eval.RtKind) : rtDecode (rtCode k) = k := by cases k <;> rfl
-
-/-- The ending a site has in the current code (`trap` with `cfg.panics = false`). -/
-def siteErr (site : Eval.PanicSite) : AEval.Err :=
-  if site.fixed then .rt (rtCode site.fallback) else .panic
-
-def faultErr : Eval.Fault → AEval.Err
-  | .rt k _ => .rt (rtCode k)
-  | .panic site => siteErr site
-
-def liftE {α : Type} : Except Eval.Fault α → Except AEval.Err α
-  | .ok a => .ok a
-  | .error flt => .error (faultErr flt)
-
-def tmErr : AEval.Err := .rt (rtCode .typeMismatch)
-
-/-! ### Index values as values -/
-
-def idxEnc (n : Nat) : Eval.Value N := .arr (List.replicate n .null)
-def idxDec : Eval.Value N → Nat
-  | .arr xs => xs.length
-  | _ => 0
-
-theorem idxDec_enc (n : Nat) : idxDec (idxEnc (N := N) n) = n := by simp [idxDec, idxEnc]
-
-def noSpan : Span := ⟨0, 0⟩
-
-/-- An evaluated path as `walkMut` / `walkAssign` want it (spans only matter for the error span). -/
-def pathOf (pvs : List (Eval.Value N)) : List (Nat × Span) := pvs.map fun v => (idxDec v, noSpan)
-
-/-! ### Interpolated strings -/
-
-/-- `eval_string_expr` from the values of the interpolated variables, in order. -/
-def buildInterp : List Seg → List (Eval.Value N) → Bytes → Bytes
-  | [], _, acc => acc
-  | .lit s :: rest, vs, acc => buildInterp rest vs (acc ++ s)
-  | .var _ _ :: rest, v :: vs, acc => buildInterp rest vs (acc ++ v.display)
-  | .var _ _ :: rest, [], acc => buildInterp rest [] acc
-
-/-! ### Methods -/
-
-/-- Positions a non-mutating method of this receiver reads (`pick args m.argIdx`), or its error. -/
-def memberSelE (field : Bytes) : Eval.Value N → Except AEval.Err (List Nat)
-  | .str _ =>
-    match Eval.StrM.ofName field with
-    | some m => .ok (m.argIdx.map (·.1))
-    | none => .error tmErr
-  | .num _ =>
-    match Eval.NumM.ofName field with
-    | some _ => .ok []
-    | none => .error tmErr
-  | .arr _ =>
-    match Eval.ArrM.ofName field with
-    | some .len => .ok []
-    | some .join => .ok [0]
-    | _ => .error tmErr
-  | .host (.command _) =>
-    match Eval.CmdM.ofName field with
-    | some .run => .ok []
-    | _ => .error tmErr
-  | .host (.result _) =>
-    match Eval.ResM.ofName field with
-    | some _ => .ok []
-    | none => .error tmErr
-  | .bool _ => .error (siteErr .boolReceiver)
-  | .null => .error tmErr
-
-/-- `run` on a process command without the state (`runCommand`). -/
-def runCommandE (cfg : Eval.RunCfg) (c : Proc.Cmd) : Except AEval.Err (Eval.Value N) :=
-  if cfg.policy.allow = false then .error (.rt (rtCode .processDenied))
-  else
-    match Proc.validate c cfg.policy.caps with
-    | .error _ => .error (.rt (rtCode .processSpecInvalid))
-    | .ok spec =>
-      match cfg.runProc spec with
-      | .error k => .error (.rt (rtCode k))
-      | .ok r => .ok (.host (.result r))
-
-def memberE (cfg : Eval.RunCfg) (field : Bytes) (recv : Eval.Value N) (vs : List (Eval.Value N)) :
-    Except AEval.Err (Eval.Value N) :=
-  match recv with
-  | .str s =>
-    match Eval.StrM.ofName field with
-    | some m => liftE (Eval.strMethod cfg.std m s vs)
-    | none => .error tmErr
-  | .num n =>
-    match Eval.NumM.ofName field with
-    | some m => .ok (Eval.numMethod m n)
-    | none => .error tmErr
-  | .arr xs =>
-    match Eval.ArrM.ofName field with
-    | some .len => .ok (.num (NumOps.ofInt xs.length))
-    | some .join =>
-      match vs with
-      | [.str sep] => .ok (.str (Eval.joinItems sep xs true))
-      | _ => .error (siteErr .joinSep)
-    | _ => .error tmErr
-  | .host (.command c) =>
-    match Eval.CmdM.ofName field with
-    | some .run => runCommandE cfg c
-    | _ => .error tmErr
-  | .host (.result r) =>
-    match Eval.ResM.ofName field with
-    | some m => .ok (Eval.resMethod m r)
-    | none => .error tmErr
-  | .bool _ => .error (siteErr .boolReceiver)
-  | .null => .error tmErr
-
-/-- The checks `evalMutOp` makes on an argument value before it goes on. -/
-def chkString (v : Eval.Value N) : Except AEval.Err (Eval.Value N) :=
-  (liftE (Eval.requiredString v noSpan)).map fun _ => v
-def chkTimeout (v : Eval.Value N) : Except AEval.Err (Eval.Value N) :=
-  (liftE (Eval.timeoutMs v noSpan)).map fun _ => v
-
-def mutStepsM : Eval.MutM → List (Nat × (Eval.Value N → Except AEval.Err (Eval.Value N)))
-  | .push => [(0, .ok)]
-  | .cmd .arg => [(0, .ok)]
-  | .cmd .cwd => [(0, chkString)]
-  | .cmd .env => [(0, chkString), (1, .ok)]
-  | .cmd .stdinText => [(0, .ok)]
-  | .cmd .timeoutMs => [(0, chkTimeout)]
-  | _ => []
-
-def strOf : Eval.Value N → Bytes
-  | .str s => s
-  | _ => []
-
-def msOf (v : Eval.Value N) : Nat :=
-  match Eval.timeoutMs v noSpan with
-  | .ok ms => ms
-  | .error _ => 0
-
-/-- The mutation, from the values of the arguments read. -/
-def mutOpOf : Eval.MutM → List (Eval.Value N) → Eval.MutOp N
-  | .push, [v] => .push v
-  | .push, _ => .pop
-  | .pop, _ => .pop
-  | .reverse, _ => .reverse
-  | .cmd .arg, [v] => .cmd (.arg v.display)
-  | .cmd .cwd, [v] => .cmd (.cwd (strOf v))
-  | .cmd .env, [k, v] => .cmd (.env (strOf k) v.display)
-  | .cmd .stdinText, [v] => .cmd (.stdinText v.display)
-  | .cmd .timeoutMs, [v] => .cmd (.timeout (msOf v))
-  | .cmd .stdinInherit, _ => .cmd .stdinInherit
-  | .cmd .stdinNull, _ => .cmd .stdinNull
-  | .cmd .stdoutCapture, _ => .cmd .stdoutCapture
-  | .cmd .stdoutInherit, _ => .cmd .stdoutInherit
-  | .cmd .stdoutNull, _ => .cmd .stdoutNull
-  | .cmd .stderrCapture, _ => .cmd .stderrCapture
-  | .cmd .stderrInherit, _ => .cmd .stderrInherit
-  | .cmd .stderrNull, _ => .cmd .stderrNull
-  | .cmd _, _ => .cmd .clone
-
-/-- `applyMut` without the state: walk the path from the root value, mutate the cell. -/
-def mutMemberE (field : Bytes) (root : Eval.Value N) (pvs avs : List (Eval.Value N)) :
-    Except AEval.Err (Eval.Value N × Eval.Value N) :=
-  match Eval.MutM.ofName field with
-  | none => .error .panic
-  | some m =>
-    match Eval.walkMut root (pathOf pvs) with
-    | .error flt => .error (faultErr flt)
-    | .ok cell =>
-      match (mutOpOf m avs).apply cell noSpan with
-      | .error flt => .error (faultErr flt)
-      | .ok (cell', res) => .ok (Eval.setPath root ((pathOf pvs).map (·.1)) cell', res)
-
-def setPathE (root : Eval.Value N) (pvs : List (Eval.Value N)) (v : Eval.Value N) : Except AEval.Err (Eval.Value N) :=
-  match Eval.walkAssign noSpan root (pathOf pvs) with
-  | .error flt => .error (faultErr flt)
-  | .ok () => .ok (Eval.setPath root ((pathOf pvs).map (·.1)) v)
-
-/-! ### Nodes -/
-
-def nodeE : Expr → List (Eval.Value N) → Except AEval.Err (Eval.Value N)
-  | .num lex _, _ => .ok (.num ((NumOps.ofLit lex).getD (NumOps.ofInt 0)))
-  | .str (.static s) _, _ => .ok (.str s)
-  | .str (.interp segs) _, rs => .ok (.str (buildInterp segs rs []))
-  | .bool b _, _ => .ok (.bool b)
-  | .null _, _ => .ok .null
-  | .binary op _ _ sp, [a, b] =>
-    match Eval.ArithOp.ofBin op with
-    | some o => liftE (Eval.arith o a b sp)
-    | none => .error .panic
-  | .unary op _ _, [a] => liftE (Eval.unary op a)
-  | .array _ _, vs => .ok (.arr vs)
-  | .index _ _ isp _, [a, i] => liftE (Eval.indexRead a i isp)
-  | .member _ _ _ _, _ => .error (siteErr .bareMember)
-  | .call _ _ _ _, _ => .error (siteErr .calleeShape)
-  | _, _ => .error .panic
-
-def globalE (name : Bytes) (vs : List (Eval.Value N)) : Except AEval.Err (Eval.Value N) :=
-  match Eval.GlobalB.ofName name, vs with
-  | some .typeOf, [v] => .ok (.str v.typeOf)
-  | some .readLine, [_] => .ok (.str [])
-  | some .toString, [v] => .ok (.str v.display)
-  | some .command, [.str p] => .ok (.host (.command (Proc.Cmd.new p)))
-  | some .command, [_] => .error (siteErr .commandArg)
-  | some .shout, [_] => .ok .null
-  | _, _ => .error .panic
-
-/-- **The instance.** -/
-def evalPrims (cfg : Eval.RunCfg) (ds ss : Nat → Option Nat) : AEval.Prims (Eval.Value N) where
-  null := .null
-  node := nodeE
-  falsy := Eval.andStops
-  truthy := Eval.orStops
-  logicRhs := fun v => liftE (Eval.logicRhs .andRhs v)
-  logicShort := fun op => match op with | .or => .bool true | _ => .bool false
-  cond := fun v => liftE (Eval.truthy .ifCond v)
-  isGlobal := fun name => (Eval.GlobalB.ofName name).isSome
-  isShout := fun name => Eval.GlobalB.ofName name == some .shout
-  global := globalE
-  isMut := fun field => (Eval.MutM.ofName field).isSome
-  memberSel := memberSelE
-  member := fun e recv vs => match e with
-    | .call (.member _ field _ _) _ _ _ => memberE cfg field recv vs
-    | _ => .error .panic
-  argMissing := tmErr
-  mutSteps := fun field => match Eval.MutM.ofName field with | some m => mutStepsM m | none => []
-  mutMember := mutMemberE
-  setPath := setPathE
-  idx := fun v => (liftE (Eval.indexValue v noSpan)).map idxEnc
-  lvErr := tmErr
-  dscope := ds
-  sscope := ss
-
-end NaijaVerif.C03
